@@ -298,6 +298,7 @@ pub fn exec(song: &mut Song, tokens: &Vec<Token>) -> bool {
                 let args = exec_args(song, &t.children.clone().unwrap_or(vec![]));
                 if args.len() < 2 {
                     runtime_error(song, "[TimeSignature] argument must be 2");
+                    pos += 1;
                     continue;
                 }
                 song.timesig_frac = value_range(2, args[0].to_i(), 64);
@@ -333,6 +334,7 @@ pub fn exec(song: &mut Song, tokens: &Vec<Token>) -> bool {
                 let mut args: Vec<SValue> = exec_args(song, &t.children.clone().unwrap_or(vec![]));
                 if args.len() == 0 {
                     runtime_error(song, &format!("SysEx : {}", song.get_message(MessageKind::ErrorWrongArguments)));
+                    pos += 1;
                     continue;
                 }
                 // check leading 0xF0
@@ -370,7 +372,7 @@ pub fn exec(song: &mut Song, tokens: &Vec<Token>) -> bool {
                 let sub_id = t.value_i as u8 & 0x7F;
                 match sub_id {
                     0x01 => { // Master Volume (0x01) 7bit
-                        let val = if data.len() >= 1 { data[1].to_i() as u8 & 0x7F } else { 0 };
+                        let val = if data.len() >= 1 { data[0].to_i() as u8 & 0x7F } else { 0 };
                         event = Some(Event::sysex(
                             time, &vec![
                                 SValue::from_i(0xF0),
@@ -384,7 +386,7 @@ pub fn exec(song: &mut Song, tokens: &Vec<Token>) -> bool {
                             ], false));
                     },
                     0x02 => { // Master Balance (0x02) 14bit
-                        let mut val = if data.len() >= 1 { data[1].to_i() } else { 0 };
+                        let mut val = if data.len() >= 1 { data[0].to_i() } else { 0 };
                         val += 8192;
                         let val_lsb = (val & 0x7F) as isize;
                         let val_msb = ((val >> 7) & 0x7F) as isize;
@@ -779,7 +781,7 @@ pub fn exec(song: &mut Song, tokens: &Vec<Token>) -> bool {
                     '-' => c = SValue::from_i(a.to_i() - b.to_i()),
                     '*' => c = SValue::from_i(a.to_i() * b.to_i()),
                     '/' => c = a.div(b),
-                    '%' => c = SValue::from_i(a.to_i() % b.to_i()),
+                    '%' => c = SValue::from_i(if b.to_i() == 0 { 0 } else { a.to_i() % b.to_i() }),
                     _ => {
                         song.add_log(String::from("[Calc] unknown flag"));
                     }
@@ -1054,11 +1056,12 @@ fn exec_sys_function(song: &mut Song, t: &Token) -> bool {
         if arg_count >= 2 {
             let min = args[0].to_i();
             let max = args[1].to_i();
-            let rnd = (song.rand() & 0x7FFFFFFF) as isize % (max - min + 1) + min;
+            let range = max - min + 1;
+            let rnd = if range == 0 { min } else { (song.rand() & 0x7FFFFFFF) as isize % range + min };
             song.stack.push(SValue::from_i(rnd));
         } else if arg_count == 1 {
             let m = args[0].to_i();
-            let v = ((song.rand() & 0x7FFFFFFF) as isize) % m;
+            let v = if m == 0 { 0 } else { ((song.rand() & 0x7FFFFFFF) as isize) % m };
             song.stack.push(SValue::from_i(v));
         } else if arg_count == 0 {
             let v = song.rand() as isize;
@@ -1066,8 +1069,10 @@ fn exec_sys_function(song: &mut Song, t: &Token) -> bool {
         }
     }
     else if func_name == "RandomSelect" {
-        let r = song.rand() as usize % arg_count;
-        song.stack.push(args[r as usize].clone());
+        if arg_count >= 1 {
+            let r = song.rand() as usize % arg_count;
+            song.stack.push(args[r as usize].clone());
+        }
     }
     else if func_name == "CHR" || func_name == "Chr" {
         if arg_count >= 1 {
@@ -1107,7 +1112,7 @@ fn exec_sys_function(song: &mut Song, t: &Token) -> bool {
         if arg_count >= 1 {
             let v = match &args[0] {
                 SValue::Array(a) => a.len(),
-                SValue::Str(s, _) => s.len(),
+                SValue::Str(s, _) => s.chars().count(),
                 SValue::IntArray(a) => a.len(),
                 SValue::StrArray(a) => a.len(),
                 _ => 0
@@ -1140,11 +1145,14 @@ fn exec_sys_function(song: &mut Song, t: &Token) -> bool {
 }
 
 fn vb_mid(input: &str, start: usize, length: usize) -> Option<&str> {
-    let input_len = input.len();
+    // count in characters (not bytes), clamp to the string
+    let idx: Vec<usize> = input.char_indices().map(|(i, _)| i).chain([input.len()]).collect();
+    let input_len = idx.len() - 1;
     let start = if start >= 1 { start - 1 } else { 0 };
-    let mut end = start + length;
+    let start = if start >= input_len { input_len } else { start };
+    let mut end = start.saturating_add(length);
     if end >= input_len { end = input_len; }
-    Some(&input[start..end])
+    Some(&input[idx[start]..idx[end]])
 }
 
 fn exec_if(song: &mut Song, t: &Token) -> bool {
